@@ -90,9 +90,9 @@ def fold_verdicts(m: Model):
                     flag |= Flag.PREMATURE
                 tab = Obj('tableau', flag=flag, argument=arg, open=[object()] * nopen)
                 for n in ('finished', 'completed', 'premature'):
-                    setattr(tab, n, it.call(getters[n], [tab]))
-                valid = it.call(getters['valid'], [tab])
-                invalid = it.call(getters['invalid'], [tab])
+                    setattr(tab, n, it.safe(getters[n], [tab]))
+                valid = it.safe(getters['valid'], [tab])
+                invalid = it.safe(getters['invalid'], [tab])
                 case = f'FINISHED={fin} PREMATURE={prem} argument={arg} open={nopen}'
                 exp_completed = fin and not prem
                 ok = tab.completed == exp_completed and tab.finished == fin and tab.premature == (fin and prem)
@@ -118,7 +118,7 @@ def fold_max_steps(m: Model):
             flag = Flag.HAS_STEP_LIMIT if has else Flag(0)
             tab = Obj('tableau', flag=flag, history=[0] * steps, opts={'max_steps': mx})
             try:
-                got = bool(it.call(fn, [tab]))
+                got = bool(it.safe(fn, [tab]))
             except TypeError as e:
                 got = f'TypeError {e}'
             want = has and steps >= mx
